@@ -52,8 +52,108 @@ def _offset(col, base_attr):
     return f
 
 
-@analysis("chp", ["C06.a", "C06.b", "C06.c"])
+rule("C06.h", "a slice of the bound vectors that starts at the first variable of a block (self.on_idx ...) and whose length comes from a "
+              "duration (remaining runtime / downtime) is clamped to the block length: the block is followed by other variables",
+     floor=2, props=["C06", "C07"])
+
+
+rule("C06.i", "'the start ramp is still in progress at the beginning of the horizon' is one condition (time already running < length of "
+              "the start ramp): every test that relates the two quantities has the same direction - the start profile is imposed and "
+              "the ordinary ramp relaxed in exactly the same case", floor=1)
+
+
+def _ramp_in_progress(ctx):
+    p = ctx.p
+    sites = []
+    for fn in sorted(p.all_functions(), key=lambda f: f.qualname):
+        if fn.parent is not None or fn.cls is None or not p.is_subclass(fn.cls, "CHPAsset"):
+            continue
+        for n in au.walk_local(fn.node, include_self=False):
+            if not (isinstance(n, ast.Compare) and len(n.ops) == 1 and isinstance(n.ops[0], (ast.Lt, ast.LtE, ast.Gt, ast.GtE))):
+                continue
+            ev = lf.LinEval(lambda e: au.U(e) if isinstance(e, (ast.Name, ast.Attribute)) else None)
+            a, b = ev.ev(n.left), ev.ev(n.comparators[0])
+            if a is None or b is None:
+                continue
+            d = lf.add(b, a, -1)        # right - left
+            atoms = {k for k in d if k != lf.ONE}
+            run = [k for k in atoms if k.endswith("time_already_running")]
+            srt = [k for k in atoms if k.endswith("start_ramp_time")]
+            if len(atoms) != 2 or not run or not srt:
+                continue
+            # direction: sign of the coefficient of start_ramp_time in (greater side - smaller side)
+            greater_minus_smaller = d if isinstance(n.ops[0], (ast.Lt, ast.LtE)) else lf.scale(d, -1)
+            direction = "running < ramp length" if greater_minus_smaller[srt[0]] > 0 else "running > ramp length"
+            sites.append((fn, n, direction))
+    if not sites:
+        ctx.ob("C06.i", "CHPAsset", "tests relating time_already_running and start_ramp_time", None, "no such test found")
+        return
+    dirs = {d for _, _, d in sites}
+    ctx.ob("C06.i", "CHPAsset", "start ramp in progress at the beginning of the horizon", len(dirs) == 1,
+           "the tests disagree: %s. One of them is wrong: the start profile is imposed for the remaining steps of a start ramp "
+           "(running < ramp length); if the ordinary ramp is relaxed in the opposite case, a plant that has been running for longer than "
+           "its start ramp may jump from its last dispatch to full load in the first step (last dispatch 2, ramp 1: first step 10 "
+           "instead of at most 3), and a start ramp in progress is not relaxed" % "; ".join(
+               "%s: `%s` (%s)" % (p.where(n), au.short(n, 50), d) for _, n, d in sites), node=sites[-1][1],
+           ok_detail="%d test(s), all '%s'" % (len(sites), next(iter(dirs))))
+
+
+def _block_slices(ctx):
+    p = ctx.p
+    n = 0
+    for fn in sorted(p.all_functions(), key=lambda f: f.qualname):
+        if fn.parent is not None or fn.cls is None or not p.is_subclass(fn.cls, "CHPAsset"):
+            continue
+        for st in au.walk_stmts(fn.body):
+            for x in au.walk_own(st):
+                if not (isinstance(x, ast.Subscript) and isinstance(x.slice, ast.Slice) and x.slice.lower is not None and x.slice.upper is not None):
+                    continue
+                if not (isinstance(x.value, ast.Attribute) and x.value.attr in ("l", "u", "c", "x")):
+                    continue
+                lo, up = x.slice.lower, x.slice.upper
+                # the slice starts at a block index kept on the asset
+                if not any(isinstance(y, ast.Attribute) and y.attr.endswith("_idx") and au.base_name(y) == "self" for y in au.walk_local(lo)):
+                    continue
+                ev = lf.LinEval(lambda e: au.U(e) if isinstance(e, (ast.Attribute, ast.Name, ast.Call)) else None)
+                f_lo, f_up = ev.ev(lo), ev.ev(up)
+                length = lf.add(f_up, f_lo, -1) if (f_lo is not None and f_up is not None) else None
+                if length is None:
+                    ctx.ob("C06.h", fn, au.short(x, 80), None, "length of the slice not understood", node=x)
+                    continue
+                if lf.const_of(length) is not None:
+                    continue                    # a fixed number of entries
+                n += 1
+                atoms = [a for a in length if a != lf.ONE]
+
+                def bounded(a):
+                    a_ = a.replace(" ", "")
+                    if a_.startswith("min(") and (".T" in a_ or "self.n" in a_ or "len(" in a_):
+                        return True
+                    return a_.endswith(".T") or a_ == "self.n"
+                # through a local: min(...) defined just before
+                def resolved(a):
+                    try:
+                        e = ast.parse(a, mode="eval").body
+                    except SyntaxError:
+                        return a
+                    if isinstance(e, ast.Name):
+                        return au.U(ctx.resolve(fn, e, st))
+                    return a
+                loose = [a for a in atoms if not bounded(resolved(a))]
+                ctx.ob("C06.h", fn, au.short(x, 80), not loose,
+                       "the slice covers %s entries from the first variable of the block; %s is a duration that can exceed the number of steps "
+                       "of the (restricted) grid, and the block is followed by the start / shutdown variables: on a horizon shorter than the "
+                       "remaining minimum runtime / downtime the bounds of those variables are overwritten (starts forced to 1: start costs "
+                       "charged without a start, value -19 instead of -4; or starts forbidden)" % (lf.show(length), ", ".join(loose)), node=x,
+                       ok_detail="length %s" % lf.show(length))
+    return n
+
+
+@analysis("chp", ["C06.a", "C06.b", "C06.c", "C06.h", "C06.i"])
 def run(ctx):
+    _ramp_in_progress(ctx)
+    n_h = _block_slices(ctx)
+    ctx.require(n_h >= 1, "no block slice of the bound vectors found in the CHP classes")
     p = ctx.p
     chp = p.cls("CHPAsset")
     ev = lf.LinEval(_names_atom)
